@@ -195,6 +195,41 @@ def judge(case) -> Verdict:
     acl.resequence(0)
     if [ln[len(ind):] for ln in acl.line.split("\n")[1:]] != want_lines:
         v.fail("roundtrip:text-differs-after-removing-numbers", dict(detail, got=acl.line, want=want_lines))
+    # ---- the estimate follows in-place edits made after it was read (weights from the entries' own member lists,
+    # cross-checked against the case-derived estimate first; the flat order may differ from the case order)
+    from cisco_acl import Ace
+
+    def weight(o) -> int:
+        return (len(o.srcaddr.items) or 1) * (len(o.dstaddr.items) or 1)
+
+    flat2 = list(acl.items)
+    aces = [o for o in flat2 if isinstance(o, Ace)]
+    if 1 + sum(weight(o) for o in aces) == tcam:
+        mode = perm[0] % 3
+        want2 = None
+        if mode == 2:
+            for o in aces:
+                addr = next((a for a in (o.srcaddr, o.dstaddr) if len(a.items) >= 2), None)
+                if addr is not None:
+                    w0 = weight(o)
+                    addr.items = list(addr.items)[:-1]
+                    want2 = tcam - w0 + weight(o)
+                    v.label("tcam-after-member-removal")
+                    break
+        if want2 is None and mode == 1 and aces:
+            o = aces[perm[-1] % len(aces)]
+            acl.append(o.copy())
+            want2 = tcam + weight(o)
+            v.label("tcam-after-append")
+        if want2 is None and len(flat2) >= 2:
+            last = flat2[-1]
+            acl.pop()
+            want2 = tcam - (weight(last) if isinstance(last, Ace) else 0)
+            v.label("tcam-after-pop")
+        if want2 is not None:
+            got2 = acl.tcam_count()
+            if got2 != want2:
+                v.fail("tcam:after-in-place-edit", dict(detail, got=got2, want=want2, text=acl.line))
     v.nt(nblocks >= 2 or moved)
     v.label(f"blocks={min(nblocks, 6)}", "distinct-headings" if distinct else "duplicate-headings", how,
             "moved" if moved else "identity")
